@@ -48,24 +48,25 @@ def Seq(*ts):
     return r
 
 
-def coq_term(t):
+def coq_term(t, nm=cps):
+    """nm: how a name is printed (the batch run abbreviates names to one-element lists: only name identity matters)."""
     tag = t[0]
     if tag == "Ref":
-        return "(Ref %s)" % cps(t[1])
+        return "(Ref %s)" % nm(t[1])
     if tag == "Decl":
-        return "(Decl (mkForm %s %s) %s)" % (t[1], "true" if t[2] else "false", cps(t[3]))
+        return "(Decl (mkForm %s %s) %s)" % (t[1], "true" if t[2] else "false", nm(t[3]))
     if tag == "Bind":
-        return "(Bind (mkForm %s %s) %s %s)" % (t[1], "true" if t[2] else "false", cps(t[3]), coq_term(t[4]))
+        return "(Bind (mkForm %s %s) %s %s)" % (t[1], "true" if t[2] else "false", nm(t[3]), coq_term(t[4], nm))
     if tag in ("Block", "Fun"):
-        return "(%s %s)" % (tag, coq_term(t[1]))
+        return "(%s %s)" % (tag, coq_term(t[1], nm))
     if tag == "Seq":
-        return "(Seq %s %s)" % (coq_term(t[1]), coq_term(t[2]))
+        return "(Seq %s %s)" % (coq_term(t[1], nm), coq_term(t[2], nm))
     if tag == "PropKey":
-        return "(PropKey %s %s)" % (cps(t[1]), coq_term(t[2]))
+        return "(PropKey %s %s)" % (nm(t[1]), coq_term(t[2], nm))
     if tag == "Member":
-        return "(Member %s %s)" % (coq_term(t[1]), cps(t[2]))
+        return "(Member %s %s)" % (coq_term(t[1], nm), nm(t[2]))
     if tag == "Label":
-        return "(Label %s %s)" % (cps(t[1]), coq_term(t[2]))
+        return "(Label %s %s)" % (nm(t[1]), coq_term(t[2], nm))
     if tag == "Skip":
         return "Skip"
     raise ValueError(tag)
@@ -455,7 +456,11 @@ def run_model(terms_with_names):
     os.makedirs(d, exist_ok=True)
     uniq, idx = {}, []
     for t, n in terms_with_names:
-        key = (coq_term(t), n)
+        table = {n: 0}
+
+        def nm(x, table=table):
+            return "[%d]" % table.setdefault(x, len(table))
+        key = (coq_term(t, nm), "[0]")
         if key not in uniq:
             uniq[key] = len(uniq)
         idx.append(uniq[key])
@@ -469,7 +474,7 @@ def run_model(terms_with_names):
         with open(path, "w") as f:
             f.write("From V Require Import Common.Str Scope.MiniScope.\nOpen Scope N_scope.\n")
             f.write("Definition cases : list (term * str) := [\n")
-            f.write(";\n".join("(%s, %s)" % (t, cps(n)) for t, n in chunks[ci]))
+            f.write(";\n".join("(%s, %s)" % (t, n) for t, n in chunks[ci]))
             f.write("].\nEval vm_compute in (map (fun c => probe (fst c) (snd c)) cases).\n")
         p = subprocess.run(["timeout", "600", "coqc", "-Q", lib.COQ, "V", path], cwd=d, stdout=subprocess.PIPE, stderr=subprocess.STDOUT, text=True)
         if p.returncode != 0:
